@@ -102,3 +102,90 @@ def check(ctx, fns, rule="R23.lanes", key_prefix="lane-width"):
             ctx.ob(rule, key, P.where(c), what, we >= min(widths),
                    "operand produced by %s" % sorted(set(iname(p) for p in prods if lane_width(iname(p))))[:4])
     return n
+
+
+# ---- R23b: a bit test is not decided by a signed compare that the tested bit makes negative
+CMP = re.compile(r"^_mm(256|512)?_cmp(gt|lt)_epi(8|16|32|64)$")
+SETC = re.compile(r"^_mm(256|512)?_set(r|1)?_epi(8|16|32|64)x?$")
+ANDI = re.compile(r"^_mm(256|512)?_and_si(128|256|512)$")
+ZERO = re.compile(r"^_mm(256|512)?_setzero_si(128|256|512)$")
+
+
+def _single_def(fn, node, depth=0):
+    """the expression that defines the vector value of node (through casts and single-definition locals)"""
+    x = node.strip_casts()
+    if x is None:
+        return None
+    if x.k == "DeclRefExpr" and x.get("dk") == "local" and depth < 4:
+        d = x.get("d")
+        defs = []
+        for n in fn.body.walk():
+            if n.k == "DeclStmt":
+                for dd, init in zip(n.get("decls", []), n.c):
+                    if dd.get("d") == d and init is not None:
+                        defs.append(init)
+            elif n.k == "BinaryOperator" and n.op == "=" and n.c[0].strip().k == "DeclRefExpr" and n.c[0].strip().get("d") == d:
+                defs.append(n.c[1])
+        if len(defs) != 1:
+            return None
+        return _single_def(fn, defs[0], depth + 1)
+    return x
+
+
+def _const_lanes(fn, node):
+    """(lane width, [lane constants]) of a vector built from constants, or None"""
+    x = _single_def(fn, node)
+    if x is None or x.k != "CallExpr":
+        return None
+    nm = iname(x) or ""
+    if ZERO.match(nm):
+        return (8, [0])
+    m = SETC.match(nm)
+    if not m:
+        return None
+    vals = [a.cv if a is not None else None for a in x.args()]
+    if any(v is None for v in vals):
+        return None
+    w = int(m.group(3))
+    return (w, [v & ((1 << w) - 1) for v in vals])
+
+
+def check_signed_bit_test(ctx, fns, rule="R23.signed-bit-test", key_prefix="signed-bit-test"):
+    """`cmpgt(and(x, M), 0)` / `cmplt(0, and(x, M))` with single-bit lanes in the constant M is a test for
+    'bit set'; a lane of M that is the sign bit of the compared width makes the masked value negative, so the
+    signed compare answers 'clear' for a set bit."""
+    P = ctx.P
+    n = 0
+    for fn in fns:
+        idx = 0
+        for c in fn.body.walk():
+            if c.k != "CallExpr" or not c.callee:
+                continue
+            m = CMP.match(iname(c) or "")
+            if not m or len(c.args()) < 2:
+                continue
+            w = int(m.group(3))
+            a, b = c.args()[0], c.args()[1]
+            if m.group(2) == "lt":
+                a, b = b, a
+            zb = _const_lanes(fn, b)
+            if zb is None or any(v != 0 for v in zb[1]):
+                continue
+            av = _single_def(fn, a)
+            if av is None or av.k != "CallExpr" or not ANDI.match(iname(av) or ""):
+                continue
+            masks = [ml for ml in (_const_lanes(fn, x) for x in av.args()) if ml is not None]
+            if not masks:
+                continue
+            mw, lanes = masks[0]
+            if mw != w or not all(v == 0 or (v & (v - 1)) == 0 for v in lanes):
+                continue        # not a per-lane single-bit mask of the compared width
+            n += 1
+            key = "%s|%s:%s|L%d" % (key_prefix, P.rel(fn.file), fn.name, idx)
+            idx += 1
+            sign = 1 << (w - 1)
+            hit = [v for v in lanes if v == sign]
+            ctx.ob(rule, key, P.where(c),
+                   "`%s` tests single mask bits with a signed %d-bit compare; no mask lane is the sign bit" % (src(c)[:70], w),
+                   not hit, "a lane of the mask is %#x: the masked value is negative when that bit is set" % sign if hit else "")
+    return n
